@@ -257,3 +257,44 @@ func spec_scanLen(c0 rune) int {
 	}
 	return 1
 }
+
+// ---------------------------------------------------------------- C09 folding
+
+// spec_litval: the value a literal node evaluates to (nil for other nodes).
+func spec_litval(e Expr) interface{} {
+	switch e := e.(type) {
+	case *IntegerLiteral:
+		return e.Val
+	case *UnsignedLiteral:
+		return e.Val
+	case *NumberLiteral:
+		return e.Val
+	case *BooleanLiteral:
+		return e.Val
+	case *StringLiteral:
+		return e.Val
+	}
+	return nil
+}
+
+// spec_isValueLit: a literal of one of the five value kinds of the statement.
+func spec_isValueLit(e Expr) bool {
+	switch e.(type) {
+	case *IntegerLiteral, *UnsignedLiteral, *NumberLiteral, *BooleanLiteral, *StringLiteral:
+		return true
+	}
+	return false
+}
+
+// spec_isNumLit: integer, unsigned or float literal.
+func spec_isNumLit(e Expr) bool {
+	switch e.(type) {
+	case *IntegerLiteral, *UnsignedLiteral, *NumberLiteral:
+		return true
+	}
+	return false
+}
+
+// spec_isStrLit / spec_isBoolLit
+func spec_isStrLit(e Expr) bool  { _, ok := e.(*StringLiteral); return ok }
+func spec_isBoolLit(e Expr) bool { _, ok := e.(*BooleanLiteral); return ok }
